@@ -1,2 +1,3 @@
 pub mod atoms;
+pub mod bytes;
 pub mod trees;
